@@ -32,6 +32,7 @@ TRUSTED = [
 ]
 
 ALPHA = ["launch", "launch_2-0", "boot3.0"]
+ALPHA_EXT_CHARS = ["stage2", "proto", "boot.w"]      # names ending in one of the characters of ".qcow2"
 QCOW2_SRC = os.environ.get("C17_QCOW2_SRC")      # (mutation sanity only) alternative source files
 RAMFILE_SRC = os.environ.get("C17_RAMFILE_SRC")
 _MODS = {}
@@ -624,6 +625,11 @@ def correspondence(ctx):
             cases.append(ram_case(rng, n, sets, fourth))
         if thorough or n_assign % 4 == 0:
             cases.append(ramext_case(rng, n, sets, fourth))
+        if thorough or n_assign % 4 == 2:
+            # the same assignment over state names that END in characters of the image extension (".qcow2"): deriving the state
+            # from the file name must cut the extension off as a suffix, not as a set of characters
+            ren = dict(zip(ALPHA, ALPHA_EXT_CHARS))
+            cases.append(ramext_case(rng, n, [[ren[x] for x in st] for st in sets], [ren[x] for x in fourth]))
     ctx.extra["exhaustive"] = {"assignments": n_assign, "three_image_assignments": 8 ** 3 * 8,
                                "tiers": ["qcow2vt (listings)", "ramfile (stub image backend)"],
                                "orders": f"{reps} random shuffle(s) of every list per assignment"}
